@@ -1,0 +1,15 @@
+// Copyright The gittuf Authors
+// SPDX-License-Identifier: Apache-2.0
+
+//go:build verif
+
+package luasandbox
+
+import lua "github.com/yuin/gopher-lua"
+
+// VerifLState exposes the Lua state of the environment to the verification
+// harness (build tag verif only), so that the environment graph (tables,
+// metatables, function environments) can be walked from Go.
+func (l *LuaEnvironment) VerifLState() *lua.LState {
+	return l.lState
+}
